@@ -238,6 +238,12 @@ class AsyncListener:
         v6_flow_scope: Union[Tuple[()], Tuple[int, int]],
     ) -> None:
         """Respond to a query and reassemble any truncated deferred packets."""
+        if msg is not None and port != _MDNS_PORT:
+            # A one-shot query from a legacy port is another querier on that
+            # host, it does not complete the truncated query that is held for
+            # the address and is answered on its own
+            self._query_handler.handle_assembled_query([msg], addr, port, transport, v6_flow_scope)
+            return
         self._cancel_any_timers_for_addr(addr)
         packets = self._deferred.pop(addr, [])
         if msg:
